@@ -13,6 +13,7 @@ import (
 
 	"github.com/btcsuite/btcd/btcec/v2"
 	"github.com/btcsuite/btcd/chaincfg"
+	"github.com/elementsproject/peerswap/lnd"
 	"github.com/elementsproject/peerswap/log"
 	"github.com/elementsproject/peerswap/messages"
 	"github.com/elementsproject/peerswap/onchain"
@@ -22,6 +23,7 @@ import (
 	"github.com/elementsproject/peerswap/txwatcher"
 	"github.com/elementsproject/peerswap/verifsim/rt"
 	"github.com/elementsproject/peerswap/version"
+	"github.com/lightningnetwork/lnd/lnrpc"
 	"github.com/vulpemventures/go-elements/network"
 	"go.etcd.io/bbolt"
 )
@@ -59,6 +61,10 @@ type Node struct {
 	LbtcW     swap.TxWatcher
 	inbox     []inMsg
 	inboxEv   *rt.Event
+	lnd       *fakeLnd  // tier 2: the simulated LND behind the real adapter
+	lndInbox  *lndQueue // ... its custom-message subscription, if any
+	lndClient *lnd.Client
+	lndPending []inMsg
 	Recovered bool
 	LastHeight map[string]uint32 // last height served per chain
 	heightByTask map[string]uint32
@@ -94,6 +100,9 @@ func NodePubkey(i int) string {
 func newNode(w *World, id int) *Node {
 	scn := &w.Plan.Scn
 	n := &Node{w: w, ID: id, Pubkey: NodePubkey(id), Kind: scn.Kind[id], Flavor: scn.Flavor[id]}
+	if id < 2 && scn.Adapter[id] == "lnd" {
+		n.Flavor = "lnd"
+	}
 	n.Real = n.Kind == "real"
 	if n.Flavor == "" {
 		n.Flavor = "cln"
@@ -147,7 +156,22 @@ func (n *Node) writePolicyFile() {
 func (n *Node) op(site string) *Fault {
 	rt.YieldOp(site)
 	n.checkAlive()
-	return n.w.faultLocked(n, site)
+	return n.slow(site, n.w.faultLocked(n, site))
+}
+
+// slow: fault kind "slow" - the service answers correctly, but only after Ms of
+// virtual time (a loaded or catching-up back-end); the world moves on meanwhile.
+func (n *Node) slow(site string, f *Fault) *Fault {
+	if f == nil || f.Kind != "slow" {
+		return f
+	}
+	d := f.Ms
+	if d <= 0 {
+		d = 5000
+	}
+	rt.NewEvent("slow").WaitTimeout(site+".slow", ms(d))
+	n.checkAlive()
+	return nil
 }
 
 // lightOp is a polling read: no scheduling point unless the plan asks for it.
@@ -168,7 +192,7 @@ func (n *Node) lightOp(site string) *Fault {
 			n.checkAlive()
 		}
 	}
-	return n.w.faultLocked(n, site)
+	return n.slow(site, n.w.faultLocked(n, site))
 }
 
 func mix64(a, b uint64) uint64 {
@@ -297,8 +321,19 @@ func (n *Node) boot() {
 		set(premium.LBTC, premium.SwapOut, rates[3])
 	}
 
-	ln := &lnStub{n}
-	msgr := &messengerStub{n}
+	var ln swap.LightningClient = &lnStub{n}
+	var msgr swap.Messenger = &messengerStub{n}
+	var lndSide *lndShim
+	var lndTxW swap.TxWatcher
+	if scn.Adapter[n.ID] == "lnd" {
+		var err error
+		lndSide, lndTxW, err = n.bootLnd(ctx)
+		if err != nil {
+			fail("lnd", err)
+			return
+		}
+		ln, msgr = lndSide, lndSide
+	}
 
 	var btcWatcher, lbtcWatcher swap.TxWatcher
 	var btcWallet swap.Wallet
@@ -307,7 +342,12 @@ func (n *Node) boot() {
 	var liquidValidator swap.Validator
 	btcOn := scn.BitcoinOn[n.ID]
 	liquidOn := scn.LiquidOn[n.ID]
-	if btcOn {
+	if btcOn && lndSide != nil {
+		// tier 2: the lnd adapter is the Bitcoin wallet, lnd.TxWatcher the Bitcoin watcher
+		btcWatcher = lndTxW
+		btcWallet = lndSide
+		btcValidator = n.BtcOn
+	} else if btcOn {
 		floor := onchain.LegacyFeeFloorSatPerKw
 		n.BtcOn = onchain.NewBitcoinOnChain(&estimatorStub{n}, floor, floor, &chaincfg.RegressionNetParams)
 		n.BtcWallet.onchain = n.BtcOn
@@ -360,7 +400,7 @@ func (n *Node) boot() {
 	}
 	rt.ReleaseLineage() // race builds: what the environment starts from now on is ordered after this initialisation
 	n.Up = true
-	if n.Flavor == "lnd" {
+	if n.Flavor == "lnd" && n.lnd == nil {
 		n.inboxEv = rt.NewEvent("inbox")
 		rt.Go(n.dispatchLoop)
 	}
@@ -378,6 +418,11 @@ func (n *Node) boot() {
 	w.Observe(&Obs{Node: n.ID, Inc: n.inc, Kind: "boot.upgraded"})
 	if err := svc.RecoverSwaps(); err != nil {
 		fail("recover", err)
+		return
+	}
+	// main.go of the lnd daemon subscribes to custom messages only now
+	if err := n.startLndListening(); err != nil {
+		fail("lnd listener", err)
 		return
 	}
 	n.Recovered = true
@@ -403,6 +448,10 @@ func (n *Node) Crash(restartMs int) {
 	n.handlers = nil
 	n.payCb = nil
 	n.inbox = nil
+	if n.lnd != nil {
+		n.lnd.release()
+	}
+	n.lnd, n.lndInbox, n.lndClient, n.lndPending = nil, nil, nil, nil
 	n.Svc = nil
 	w.Observe(&Obs{Node: n.ID, Inc: n.inc, Kind: "crash"})
 	if restartMs >= 0 {
@@ -443,6 +492,20 @@ func (n *Node) deliver(from int, typ int, payload []byte, idx int) {
 	w.Observe(&Obs{Node: n.ID, Inc: n.inc, Kind: "deliver", Msg: &MsgObs{From: from, To: n.ID, Type: typ, Payload: payload, Idx: idx, SwapID: swapIDOf(payload)}})
 	if typ == MsgPoll || typ == MsgRequestPoll {
 		n.deliverPeersync(from, typ, payload)
+		return
+	}
+	if n.lnd != nil {
+		// tier 2: lnd hands custom messages to whoever is subscribed right now
+		n.mu.Lock()
+		q := n.lndInbox
+		n.mu.Unlock()
+		if q == nil {
+			w.Probe("lnd:custom-message-without-subscriber-lost")
+			return
+		}
+		pk, _ := hex.DecodeString(w.Nodes[from].Pubkey)
+		n.lndPending = append(n.lndPending, inMsg{from, typ, payload, idx})
+		q.push(&lnrpc.CustomMessage{Peer: pk, Type: uint32(typ), Data: payload})
 		return
 	}
 	if n.Flavor == "lnd" {
